@@ -40,10 +40,15 @@ type c06Cfg struct {
 	// Custom: an application-provided RouteSelector (delegating to CurlyRouter) that fails requests
 	// of kind "selerr" with a plain error value instead of a restful.ServiceError
 	Custom bool `json:"custom_selector,omitempty"`
+	// Reuse: the RouteBuilder of route one is used again for a sibling route /rb (other path, one
+	// more filter z0, other function) after route one has been registered
+	Reuse bool `json:"builder_reused,omitempty"`
+	// ErrH: the container has an application-provided ServiceErrorHandler that records the pair it is handed
+	ErrH bool `json:"service_error_handler,omitempty"`
 }
 
 func (c c06Cfg) String() string {
-	return fmt.Sprintf("c%v s%v r%v jsr=%v custom-selector=%v", c.C, c.S, c.R, c.JSR, c.Custom)
+	return fmt.Sprintf("c%v s%v r%v jsr=%v custom-selector=%v builder-reused=%v error-handler=%v", c.C, c.S, c.R, c.JSR, c.Custom, c.Reuse, c.ErrH)
 }
 
 type c06Selector struct{ inner restful.CurlyRouter }
@@ -187,6 +192,16 @@ func c06Build(cfg c06Cfg) *c06World {
 		rb.Filter(c06Filter(lg, fmt.Sprintf("r%d", i), b))
 	}
 	ws1.Route(rb)
+	if cfg.Reuse {
+		// the builder keeps what it was given: the sibling has route one's filters, then z0
+		ws1.Route(rb.Path("/rb").Filter(c06Filter(lg, "z0", fPass)).To(hnd("one-b")))
+	}
+	if cfg.ErrH {
+		c.ServiceErrorHandler(func(err restful.ServiceError, req *restful.Request, resp *restful.Response) {
+			lg.add(req.Request.Header.Get("X-Req"), "errhandler "+viewOf(req, resp.ResponseWriter))
+			resp.WriteErrorString(err.Code, err.Message)
+		})
+	}
 	c.Add(ws1)
 	ws2 := new(restful.WebService).Path("/two")
 	ws2.Filter(c06Filter(lg, "x0", fAttr))
@@ -210,6 +225,8 @@ func c06Req(kind, rid string) h.Req {
 		q.Segs, q.Method = []string{"one", "r"}, "OPTIONS"
 	case "one":
 		q.Segs = []string{"one", "r"}
+	case "one-b": // the sibling route declared with route one's builder (configurations with Reuse)
+		q.Segs = []string{"one", "rb"}
 	case "boom": // route one, but the handler panics (recovered): the filters never see their exits
 		q.Segs = []string{"one", "r"}
 		q.Hdr = append(q.Hdr, [2]string{"X-Boom", "1"})
@@ -229,7 +246,7 @@ func c06Req(kind, rid string) h.Req {
 }
 
 func attrRank(id string) int {
-	for i, k := range []string{"c0", "c1", "c2", "s0", "s1", "s2", "r0", "r1", "r2", "x0", "y0"} {
+	for i, k := range []string{"c0", "c1", "c2", "s0", "s1", "s2", "r0", "r1", "r2", "x0", "y0", "z0"} {
 		if k == id {
 			return i
 		}
@@ -255,6 +272,15 @@ func c06Model(cfg c06Cfg, kind string) []string {
 			chain = append(chain, f{fmt.Sprintf("r%d", i), b})
 		}
 		target = "handler one"
+	case "one-b":
+		for i, b := range cfg.S {
+			chain = append(chain, f{fmt.Sprintf("s%d", i), b})
+		}
+		for i, b := range cfg.R {
+			chain = append(chain, f{fmt.Sprintf("r%d", i), b})
+		}
+		chain = append(chain, f{"z0", fPass})
+		target = "handler one-b"
 	case "options":
 		for i, b := range cfg.S {
 			chain = append(chain, f{fmt.Sprintf("s%d", i), b})
@@ -291,6 +317,10 @@ func c06Model(cfg c06Cfg, kind string) []string {
 		if stopped {
 			break
 		}
+	}
+	if !stopped && cfg.ErrH && (kind == "404" || kind == "405") {
+		// the error response is produced for the pair the last container filter passed on
+		log = append(log, "errhandler "+view())
 	}
 	if !stopped && target != "" {
 		if target == "plain" {
@@ -426,6 +456,15 @@ func checkC06(run *h.Run) {
 		c.Custom = true
 		cfgs = append(cfgs, c)
 	}
+	// route one's RouteBuilder used again for a sibling route; an application-provided ServiceErrorHandler
+	for _, c := range c06Cfgs(1, 1, 2, false) {
+		c.Reuse = true
+		cfgs = append(cfgs, c)
+	}
+	for _, c := range c06Cfgs(2, 1, 0, false) {
+		c.ErrH = true
+		cfgs = append(cfgs, c)
+	}
 	var e1cases int64
 	counts := make([]int64, len(cfgs))
 	h.Parallel(len(cfgs), func(_, i int) {
@@ -433,6 +472,9 @@ func checkC06(run *h.Run) {
 		kinds := c06Kinds
 		if cfg.Custom {
 			kinds = append(append([]string{}, kinds...), "selerr")
+		}
+		if cfg.Reuse {
+			kinds = append(append([]string{}, kinds...), "one-b")
 		}
 		for _, kind := range kinds {
 			w := c06Build(cfg)
@@ -509,7 +551,7 @@ func checkC06(run *h.Run) {
 	run.Cov["evaluations"] = e1cases + seqTrans
 	run.Cov["distinct_nontrivial"] = e1cases + seqStates
 	run.Cov["exhaustive"] = true
-	run.Cov["rule"] = fmt.Sprintf("E1: every assignment of behaviours {pass, stop, replace pair, set attribute, http middleware} to (n_c, n_s, n_r) in {0,1,2}^3 filters (thorough also n_c = 3 and RouterJSR311) x request kinds {route one, route two of another service, 404, 405, HandleWithFilter pattern, route one with a handler that panics (recovered), an OPTIONS route requested with an Origin}, ten configurations with the library's own CORS filter at each level and next to the other behaviours, and the (n_c<=2, n_s<=1, n_r<=1) configurations again behind an application-provided RouteSelector with the extra kind 'selector fails with a plain error'; the per-request event log (entries with the view each filter/handler has of pair, attributes, context, writer; handler; exits) must equal the ten-line model's. E2: every sequence of <= %d requests on one container for %d configurations, last request judged the same way. E3 (instrumented): concurrent requests, all schedules within the preemption bound with yields at every filter entry/exit and handler, happens-before race detection. Every case is non-trivial.", depth, len(seqCfgs))
+	run.Cov["rule"] = fmt.Sprintf("E1: every assignment of behaviours {pass, stop, replace pair, set attribute, http middleware} to (n_c, n_s, n_r) in {0,1,2}^3 filters (thorough also n_c = 3 and RouterJSR311) x request kinds {route one, route two of another service, 404, 405, HandleWithFilter pattern, route one with a handler that panics (recovered), an OPTIONS route requested with an Origin}, ten configurations with the library's own CORS filter at each level and next to the other behaviours, and the (n_c<=2, n_s<=1, n_r<=1) configurations again behind an application-provided RouteSelector with the extra kind 'selector fails with a plain error'; the (1,1,<=2) configurations with route one's RouteBuilder used again for a sibling route (one more filter; request kind 'sibling'); the (<=2,<=1,0) configurations with an application-provided ServiceErrorHandler that records the pair it is handed (it must be the pair the last container filter passed on); the per-request event log (entries with the view each filter/handler has of pair, attributes, context, writer; handler; exits) must equal the ten-line model's. E2: every sequence of <= %d requests on one container for %d configurations, last request judged the same way. E3 (instrumented): concurrent requests, all schedules within the preemption bound with yields at every filter entry/exit and handler, happens-before race detection. Every case is non-trivial.", depth, len(seqCfgs))
 	run.Assume = []string{"model c06Model: registration order container, service, route; first stop ends the chain; views follow the nearest upstream replace/attr/middleware"}
 	if f := e3Part["C06"]; f != nil {
 		f(run)
